@@ -360,3 +360,111 @@ Example C16_example :
   = bind (TgtPtr ty GZero) (BdStruct (VBlock (bs "t") (bs "n") [(bs "host", VStr (bs "h")); (bs "port", VInt 5)])).
 Proof. vm_compute. reflexivity. Qed.
 """)
+
+
+# ---- T1 / T2 (proved; Proofs/T2Expr, T2Proofs, T1Code, T1Vm, T1Expr, T1Proofs, Language) ----------------
+def _extend(pid, header_sub, imports_add, items_add, header_new=None):
+    h, imp, items, tail = PROPS[pid]
+    if header_new is not None:
+        h = header_new
+    else:
+        for a, b in header_sub:
+            assert a in h, (pid, a)
+            h = h.replace(a, b)
+    PROPS[pid] = (h, imp + "\n" + imports_add, items + items_add, tail)
+
+_LANG_IMPORTS = """From BCL Require Import Model.Api Model.Compile Spec.Syntax Spec.AstSem Proofs.ParserInvProofs Proofs.T2Expr Proofs.T2Proofs Proofs.T1Expr Proofs.T1Proofs Proofs.Language."""
+
+_T12 = """T2 (the one-pass parser = grammar of Spec/Syntax.v ; code generator of Model/Compile.v)
+   and T1 (executing the generated code = the big-step semantics over names of Spec/AstSem.v) are proved
+   (Proofs/T2Proofs.v, Proofs/T1Proofs.v) and composed in Proofs/Language.v; the suites t1check/t2check
+   still run both statements on every generated program as a test of the extraction."""
+
+_extend("C01", [("""are TESTED on every generated program by the suites t1check/t2check; their Coq proofs are in progress
+   (DESIGN.md section 0).""", """are PROVED: C01_language below says that for every accepted source text the run of the compiled program gives
+   the result, output, blocks, binding and warnings of the big-step semantics applied to the tree the grammar
+   assigns to the text (or stops at one of the two implementation limits).""")],
+        _LANG_IMPORTS,
+        [("C01_language", "Language", "bcl_language", "parser ; VM = grammar ; big-step semantics, for every source text"),
+         ("C01_language_acceptance", "Language", "bcl_accepts_iff", "and the accepted texts are exactly the sentences the generator accepts")])
+
+PROPS["C02"] = ("""C02: Lexical scoping and state flow of variables versus fields.
+
+   The scoping rules are those of Spec/AstSem.v, which works on NAMES: a stack of scopes (toplevel + one per open
+   block) searched innermost first for a variable declared EARLIER (`lookup_frames`; `SVar` evaluates the initialiser
+   in the environment without the new name), else inside a block a field read from the current or the nearest
+   enclosing block that has it (`field_find`) and written to the current block; a redeclaration in the same scope
+   and an unknown name at toplevel are static errors (`XStatic`), an unknown name in a block is the runtime error
+   `XUnresolved`; an assignment updates exactly the resolved variable (`assign_frames`) or field once and yields
+   the value.  The implementation has no names at run time: the compiler resolves identifiers to stack slots
+   (parse.go resolveLocal / declVar / endScope), the VM reads and writes slots and field maps.  C02_language
+   says the two agree on every accepted source text: result, output, blocks, binding and warnings of the run are
+   those the semantics gives to the tree of the text.  C02_static_errors: a text whose tree the code generator
+   rejects (redeclaration, own initialiser, unknown name at toplevel, too many locals) is rejected by Parse, and
+   conversely.  The simulation relation behind it (Proofs/T1Proofs.v `SR`) states the slot discipline: the compile
+   time table of locals is the concatenation of the scopes of the environment, innermost first, and the VM stack
+   at every statement boundary holds exactly the values of those variables in that order.""",
+_LANG_IMPORTS + "\nOpen Scope N_scope.",
+[("C02_language", "Language", "bcl_language", "parser ; VM = grammar ; big-step semantics over names, for every source text"),
+ ("C02_static_errors", "Language", "bcl_accepts_iff", "accepted iff a sentence whose tree has no static scoping error"),
+ ("C02_tree_semantics", "T1Proofs", "T1_program_iff", "for every tree: ok / runtime error (with its text) / observables coincide"),
+],
+"""
+(* non-vacuity: shadowing, own-initialiser, fields versus variables, embedded assignment *)
+Example C02_example :
+  match snd (interpret (bs "input") (bs "var x = 1 def b { var x = x + 1; y = x; def c { var x = 10; z = y + x; y = (x = 3) + x } print y } print x") false false false) with
+  | IRun o rr => rr_res rr = VOk /\\ print_lines (rr_out rr) = [bs "2" ++ [10]; bs "1" ++ [10]]
+  | _ => False
+  end.
+Proof. vm_compute. split; reflexivity. Qed.
+""")
+
+_extend("C03", [("""That the compiler emits exactly these instructions for `def`
+   and field assignments is part of T2 (tested by t2check, proof in progress).""", """That the compiler emits exactly these instructions for `def`
+   and field assignments, and that the blocks returned are those the definitions of the source denote, is
+   C03_language (T1 and T2 composed): rr_blocks = the `results` of the big-step semantics of the tree.""")],
+        _LANG_IMPORTS,
+        [("C03_language", "Language", "bcl_language", "the blocks (and everything else observable) are those of the semantics of the source's tree")])
+
+_extend("C17", [("""theorem T2, which the check tests on every generated sentence and mutation (suite t2check) and whose Coq
+   proof is in progress; C17_resync""", """theorem T2, proved (C17_accepts_iff for token lists, C17_source for source texts, C17_code for the code of
+   accepted texts; C17_fuel: the parser's recursion fuel is never the reason for a rejection); C17_resync""")],
+        """From BCL Require Import Model.Compile Spec.Syntax Proofs.T2Expr Proofs.T2Proofs Proofs.Language.""",
+        [("C17_accepts_iff", "T2Proofs", "T2_accepts_iff", "accepted (no error, no fuel exhaustion, no panic site) iff derivable from the grammar and accepted by the generator"),
+         ("C17_source", "Language", "bcl_accepts_iff", "the same for Parse on a source text"),
+         ("C17_code", "T2Proofs", "T2_code_equal", "and then code, constants and identifier table are the generator's"),
+         ("C17_rejects", "T2Proofs", "T2_core", "on token lists ending in tEOF: not a sentence => error; sentence => same verdict and same emitter state as the generator"),
+         ("C17_fuel", "T2Proofs", "T2_accept_no_oof", "an accepted parse never ran out of fuel and hit no panic site")])
+
+_extend("C20", [], """From BCL Require Import Model.Compile Spec.Syntax Proofs.ParserInvProofs Proofs.T2Proofs Proofs.Language.""",
+        [("C20_same_tree_same_program", "Language", "same_tree_same_program", "two token lists with the same tree compile to the same code, constants and identifier table"),
+         ("C20_paren_is_transparent", "Language", "paren_is_transparent", "'(' e ')' in operand position contributes exactly the tree of e: parentheses leave no node")])
+
+_extend("C20", [("""That redundant parentheses emit no code
+   is part of T2: the AST of Spec/Syntax.v has no parenthesis node, tested by t2check on every program.""",
+ """That redundant parentheses
+   change nothing follows from T2 (proved): the tree of Spec/Syntax.v has no parenthesis node
+   (C20_paren_is_transparent) and two token lists with the same tree compile to the same program
+   (C20_same_tree_same_program).""")], "", [])
+PROPS["C20"] = (PROPS["C20"][0].replace("(lexer part)", ""),) + PROPS["C20"][1:]
+
+_extend("C10", [("""that the compiler
+   only ever produces verifiable code is the conjunction of T2 and a labelling lemma for the code
+   generator, tested on every program, Coq proof in progress.""", """that compiled code
+   is well-formed along the path a run TAKES is also a corollary of T1 and T2 (C10_compiled_runs_clean: executing
+   the code Parse produced for any accepted text ends in success, a runtime error of the language, the
+   excluded repetition case or one of the two documented limits -- never an internal error or a panic site);
+   the stronger all-paths statement for compiled code (every compiled program passes `verify`) remains tested
+   on every generated program rather than proved.""")], _LANG_IMPORTS,
+        [("C10_compiled_runs_clean", "Language", "compiled_runs_clean", "")])
+
+_extend("C06", [("""Validated by
+   the differential run only: that the parser's fuel is never exhausted (the model reports `oof`, which
+   has never been observed), and that every compiled program passes the verifier""", """The parser's fuel
+   is never exhausted on an accepted input (C06_parser_fuel = T2_accept_no_oof) and a compiled program never
+   ends in an internal error or at a panic site (C06_compiled_runs_clean, from T1 and T2).  Validated by
+   the differential run only: fuel on REJECTED inputs (the model reports `oof`, never observed), and that
+   every compiled program passes the verifier""")],
+        "From BCL Require Import Model.Compile Spec.Syntax Spec.AstSem Proofs.T2Expr Proofs.T2Proofs Proofs.T1Expr Proofs.T1Proofs Proofs.Language.",
+        [("C06_parser_fuel", "T2Proofs", "T2_accept_no_oof", ""),
+         ("C06_compiled_runs_clean", "Language", "compiled_runs_clean", "")])
